@@ -16,8 +16,18 @@ let rec int_of_pos (p : positive) : int =
 
 let int_of_n (x : n) : int = match x with N0 -> 0 | Npos p -> int_of_pos p
 
-exception Crash of string
+exception Crash_ of string
 exception Exit_ of string
+
+let crash_name (c : crash) : string =
+  match c with CIndex -> "index" | CNil -> "nil" | CDiv0 -> "div0" | CExplicit -> "explicit"
+
+(* unwrap a model result; a crash / exit ends the case like a recovered panic / child exit on the Go side *)
+let ok (r : 'a res) : 'a =
+  match r with
+  | Ok a -> a
+  | Crash c -> raise (Crash_ (crash_name c))
+  | Exit -> raise (Exit_ "")
 
 let out = Buffer.create (1 lsl 20)
 let flush_out () = print_string (Buffer.contents out); Buffer.clear out
